@@ -256,6 +256,46 @@ def native_checks():
         if got != expk:
             failures.append(dict(key="excel-cell-kinds", what="cells of different kinds with equal stored values read as %r, expected %r" % (got, expk),
                                  args={}))
+        # a workbook with two different sheets read through the validator: the CID's Sheet property decides
+        from cutplace import interface, validio, errors as cerrors
+        n += 1
+        p = os.path.join(d, "two_sheets.xlsx")
+        wb = xlsxwriter.Workbook(p)
+        ws1 = wb.add_worksheet()
+        ws2 = wb.add_worksheet()
+        for y, row in enumerate([["1", "a"], ["2", "b"]]):
+            for x, c in enumerate(row):
+                ws1.write_string(y, x, c)
+        for y, row in enumerate([["7", "x"], ["broken", "y"], ["9", "z"]]):
+            for x, c in enumerate(row):
+                ws2.write_string(y, x, c)
+        wb.close()
+        seen = {}
+        for sheet in (None, 1, 2):
+            cid = interface.create_cid_from_string("d,format,excel\n%sf,id,,,,Integer\nf,name\n" % ("" if sheet is None else "d,sheet,%d\n" % sheet))
+            try:
+                seen[sheet] = ["error" if isinstance(r, cerrors.DataError) else r for r in validio.rows(cid, p, on_error="yield")]
+            except Exception as e:  # noqa
+                seen[sheet] = "%s: %s" % (type(e).__name__, e)
+        if seen != {None: [["1", "a"], ["2", "b"]], 1: [["1", "a"], ["2", "b"]], 2: [["7", "x"], "error", ["9", "z"]]}:
+            failures.append(dict(key="excel-sheet-through-reader", what="two-sheet workbook read under Sheet unset / 1 / 2: %r" % (seen,), args={}))
+        # a sheet whose rows end in cells that are not stored (first row short, widest row last): padded to the sheet's width
+        n += 1
+        p = os.path.join(d, "ragged.xlsx")
+        wb = xlsxwriter.Workbook(p)
+        ws = wb.add_worksheet()
+        stored = [["a"], ["b", "c"], [], ["d", "", "e"], ["f"]]
+        for y, row in enumerate(stored):
+            for x, c in enumerate(row):
+                if c != "":
+                    ws.write_string(y, x, c)
+        wb.close()
+        try:
+            got = list(rowio.excel_rows(p, 1))
+        except Exception as e:  # noqa
+            got = "%s: %s" % (type(e).__name__, e)
+        if got != [["a", "", ""], ["b", "c", ""], ["", "", ""], ["d", "", "e"], ["f", "", ""]]:
+            failures.append(dict(key="excel-padding", what="sheet with rows of 1, 2, 0, 3, 1 stored cells read as %r" % (got,), args={}))
         # XlsxRowWriter round trip
         tables = [
             [["a", "b"], ["c", ""]],
